@@ -69,7 +69,9 @@ package store
 //@   ensures [C04] missing: result1 != nil ==> !dsHas[kHash(hash)] && errors.Is(result1, header.ErrNotFound)
 
 //@ func (*Store).Get(s, ctx, hash)
-//@   props C04
+//@   props C04, C17
+//@   ghost pend H := result0 of call (*batch).Get #0
+//@   before get [C17] pending-before-disk: called(pend) -- the flush loop moves headers from the pending batch to the datastore (commit, then reset): a reader that looks in the batch first and on disk second can never miss a stored header, the other order can
 //@   requires hdrCacheOK() && dsHdrOK() && batchOK(s.pending)
 //@   modifies $now, ghost:hcHas, ghost:hcVal
 //@   ensures [C04] coherent: hdrCacheOK()
@@ -440,6 +442,7 @@ package store
 //@   ensures [C08] removed: result == nil ==> !dsHas[kHeight(height)] && !dsHas[kHash(old(hashAt(s, height)))] && !icHas[height] && !hcHas[hexStr(old(hashAt(s, height)))] && !has(s.pending.headers, height)
 //@   ensures [C08] others-untouched: forall k Key @ dsHas[k] :: k != kHeight(height) && k != kHash(old(hashAt(s, height))) ==> (dsHas[k] <==> old(dsHas)[k])
 //@   ensures [C06] failed-height-intact: result != nil && old(dsHas)[kHeight(height)] ==> dsHas[kHeight(height)] && (dsHas[kHash(old(hashAt(s, height)))] <==> old(dsHas)[kHash(old(hashAt(s, height)))]) -- a deletion that fails must not leave a height that is indexed but unreadable (a hole below Head)
+//@   ensures [C14,C08] failure-keeps-pending: result != nil ==> (has(s.pending.headers, height) <==> old(has(s.pending.headers, height))) -- whatever made the deletion fail, an unflushed header is still in the batch
 //@   ensures [C08] pending-others-untouched: forall h uint64 @ has(s.pending.headers, h) :: h != height ==> (has(s.pending.headers, h) <==> old(has(s.pending.headers, h)))
 //@   ensures [C08] missing-means-absent: result != nil && errors.Is(result, errMissingHeader) ==> !old(dsHas)[kHeight(height)] && !old(has(s.pending.headers, height)) && !has(s.pending.headers, height) && dsHas == old(dsHas) && hCalls == old(hCalls)
 //@ loop 0:
@@ -460,10 +463,12 @@ package store
 //@   ensures [C08] complete-on-success: result2 == nil ==> result0 == to
 //@   ensures [C08] removed: forall h uint64 :: from <= h && h < result0 ==> gone(s, h)
 //@   ensures [C08] outside-untouched: forall h uint64 :: (h < from || h >= to) ==> (dsHas[kHeight(h)] <==> old(dsHas)[kHeight(h)]) && (has(s.pending.headers, h) <==> old(has(s.pending.headers, h)))
+//@   ensures [C14,C08] unprocessed-untouched: forall h uint64 :: result0 <= h && h < to ==> (has(s.pending.headers, h) <==> old(has(s.pending.headers, h))) && (result0 < h ==> (dsHas[kHeight(h)] <==> old(dsHas)[kHeight(h)])) -- a deletion that stops at a height (handler error, datastore error, timeout) leaves that height in the pending batch and everything above it where it was
 //@ loop 0:
 //@   invariant inv: storeINV(s) && !isBatch(s.ds) && from <= height && height <= to && 0 <= missing && missing <= height - from
 //@   invariant removed: forall h uint64 :: from <= h && h < height ==> gone(s, h)
 //@   invariant outside-untouched: forall h uint64 :: (h < from || h >= to) ==> (dsHas[kHeight(h)] <==> old(dsHas)[kHeight(h)]) && (has(s.pending.headers, h) <==> old(has(s.pending.headers, h)))
+//@   invariant ahead-untouched: forall h uint64 :: height <= h && h < to ==> (dsHas[kHeight(h)] <==> old(dsHas)[kHeight(h)]) && (has(s.pending.headers, h) <==> old(has(s.pending.headers, h)))
 //@   decreases to - height
 
 // ---- pointer moves made by DeleteRange
@@ -517,6 +522,7 @@ package store
 //@   assumes from <= result0 && result0 <= to && (result2 == nil ==> result0 == to)
 //@   assumes forall h uint64 :: from <= h && h < result0 ==> gone(s, h)
 //@   assumes forall h uint64 :: (h < from || h >= to) ==> (dsHas[kHeight(h)] <==> old(dsHas)[kHeight(h)]) && (has(s.pending.headers, h) <==> old(has(s.pending.headers, h)))
+//@   assumes forall h uint64 :: result0 <= h && h < to ==> (has(s.pending.headers, h) <==> old(has(s.pending.headers, h))) && (result0 < h ==> (dsHas[kHeight(h)] <==> old(dsHas)[kHeight(h)]))
 //@   ensures [C08,C14] lowest-failure-first: result2 != nil ==> forall k int :: 0 <= k && k < len(cur(results)) && cur(results)[k].err != nil ==> ordLE(result0, cur(results)[k].height)
 //@ loop 2:
 //@   invariant bounds: -1 <= rangeindex && rangeindex + 1 <= len(results)
@@ -532,6 +538,7 @@ package store
 //@   ensures [C08] complete-on-success: result2 == nil ==> result0 == to
 //@   ensures [C08] removed: forall h uint64 :: from <= h && h < result0 ==> gone(s, h)
 //@   ensures [C08] outside-untouched: forall h uint64 :: (h < from || h >= to) ==> (dsHas[kHeight(h)] <==> old(dsHas)[kHeight(h)]) && (has(s.pending.headers, h) <==> old(has(s.pending.headers, h)))
+//@   ensures [C14,C08] unprocessed-untouched: forall h uint64 :: result0 <= h && h < to ==> (has(s.pending.headers, h) <==> old(has(s.pending.headers, h))) && (result0 < h ==> (dsHas[kHeight(h)] <==> old(dsHas)[kHeight(h)])) -- a deletion that stops at a height (handler error, datastore error, timeout) leaves that height in the pending batch and everything above it where it was
 
 // Sync hands over to the flush goroutine and blocks until the write queue is drained: the flush loop runs
 // meanwhile (it only ever adds to the datastore, moves head/tail and announces heights).
